@@ -301,6 +301,9 @@ pub fn c09_shapes(thorough: bool, seed: u64) -> Vec<Shape> {
         Shape::new("three_commits_alloc_pair", &[Commit, Commit, Commit, Alloc, Alloc, Con], &[]),
         Shape::new("closure_without_gates", &[Commit, AllocMul], &[&[Chal, Con]]),
         Shape::new("phase2_single_open_allocation", &[Commit, AllocMul, Con], &[&[Chal, Alloc, Con]]),
+        // every commitment opens with blinding factor 0 (the witness is still secret)
+        Shape::new("all_commitment_blindings_zero", &[CommitZero, AllocMul, Con], &[]),
+        Shape::new("all_commitment_blindings_zero_two_phase", &[CommitZero, CommitZero, AllocMul, Con], &[&[Chal, AllocMul, Con]]),
         Shape::new("lone_allocation_at_end_of_first_phase", &[Commit, AllocMul, Alloc, Con], &[]),
         Shape::new("lone_allocation_then_randomized_gate", &[Commit, Alloc], &[&[Chal, AllocMul, Con]]),
     ];
